@@ -30,8 +30,8 @@ ASSUMPTIONS = [
     "destination keeps its value); a mixture of set and unset overlapped values is not asserted for averaged parameters",
     "getBlocksBetweenElevations is asserted for windows that intersect the assembly; a window reaching more than 1e-5 cm "
     "outside may be refused with ValueError (its own consistency check), windows completely outside are not generated",
-    "resampleStepwise in averaging mode is not asserted for output intervals sticking out of the input range "
-    "(mean over the covered part vs. zero outside is not documented); sum mode is the integral with zero outside",
+    "resampleStepwise: an output interval straddling an end of the input range gets the overlap-weighted mean of the bins it "
+    "overlaps in averaging mode (constants stay constant), the integral with zero outside in sum mode, 0 when nothing is overlapped",
     "average1DWithinTolerance cases where some deviation is within 1e-9 of the tolerance are not compared (float order)",
     "target meshes keep cells >= 1e-4 cm and end exactly at the assembly top",
 ]
@@ -775,6 +775,9 @@ def filter_execute(case):
     if not (set(anchors) & set(cands)):
         exp = ref.greedy_filter(cands, minimum, pref)
         out.check(res == exp, "filter/preference", lambda: "candidates %r min %r pref %s: %r expected %r" % (cands, minimum, pref, res, exp))
+    elif close is None:
+        exp = ref.anchored_filter(cands, minimum, anchors, pref)
+        out.check(res == exp, "filter/conflict-rule", lambda: "candidates %r min %r anchors %r pref %s: %r expected %r" % (cands, minimum, anchors, pref, res, exp))
     out.check(list(case["cands"]) == cands and (case["container"] != "list" or arg == cands) and anchors_arg == anchors, "filter/input-modified", "inputs changed")
     removed = len(set(cands)) - len(res)
     out.nontrivial = removed >= 1 and bool(set(anchors) & set(cands))
@@ -841,16 +844,89 @@ def common_strategy(tier):
                         "control": st.booleans(),
                         "lo": st.integers(1, 4),
                         "len": st.integers(1, 3),
-                        "dev": st.lists(st.one_of(st.just(0.0), st.floats(-0.15, 0.15, allow_nan=False), st.floats(-0.5, 0.5, allow_nan=False)), min_size=6, max_size=6),
+                        "dev": st.lists(st.one_of(st.just(0.0), st.just(0.0), st.floats(-0.15, 0.15, allow_nan=False), st.floats(-0.5, 0.5, allow_nan=False)), min_size=6, max_size=6),
+                        # bottom / top of the fuel or absorber column moved off the regular plane by this many minimum sizes
+                        "shift": st.lists(st.one_of(st.sampled_from([0.0, 0.3, 0.5, 0.9, 1.5, 3.0, -0.3, -0.5, -0.9, -1.5]), st.floats(-3.0, 3.0, allow_nan=False)),
+                                          min_size=2, max_size=2),
                     }
                 ),
                 min_size=2,
                 max_size=4,
             ),
             "cells": st.lists(st.integers(0, 3), min_size=7, max_size=7),
-            "minimum": st.one_of(st.none(), st.sampled_from([0.5, 1.0, 3.0, 10.0]), st.floats(0.1, 30.0, allow_nan=False)),
+            "minimum": st.one_of(st.none(), st.sampled_from([0.5, 1.0, 3.0, 3.0, 10.0]), st.sampled_from([1.0, 3.0, 5.0]), st.sampled_from([2.0, 3.0, 4.0]),
+                                 st.floats(0.1, 30.0, allow_nan=False), st.floats(0.5, 8.0, allow_nan=False)),
         }
     )
+
+
+def _shift_boundary(hs, k, s):
+    """Move the boundary between blocks k-1 and k by s (clipped so that both keep >= 0.5 cm)."""
+    s = max(min(s, hs[k] - 0.5), -(hs[k - 1] - 0.5))
+    s = round(s, 4)
+    if s:
+        hs[k - 1] = round(hs[k - 1] + s, 6)
+        hs[k] = round(hs[k] - s, 6)
+
+
+def _check_anchor_rule(out, r, minimum, mesh, refused):
+    """Documented anchoring of material boundaries (UniformMeshGenerator._decuspAxialMesh / _getFilteredMeshTopAndBottom):
+
+    * fuel: first-fuel-block bottoms filtered to the minimum with preference for the lowest, last-fuel-block tops with
+      preference for the highest;
+    * control: absorber bottoms join the fuel bottoms (which are never removed), lowest preferred; absorber tops join
+      the fuel tops, highest preferred;
+    * bottoms and tops together, fuel boundaries never removed, otherwise the lower boundary preferred; two fuel
+      boundaries closer than the minimum are a loud failure;
+    * what survives is anchored in the common mesh.
+    """
+    from armi.reactor.flags import Flags
+
+    def ends(flag):
+        bottoms, tops = set(), set()
+        for a in r.core.getAssemblies(flag):
+            bottoms.add(float(a.getFirstBlock(flag).p.zbottom))
+            tops.add(float(a.getBlocks(flag)[-1].p.ztop))
+        return bottoms, tops
+
+    fb, ft = ends(Flags.FUEL)
+    cb, ct = ends(Flags.CONTROL)
+    info = {}
+    expect_refusal = None
+    anchors = None
+    try:
+        FB = ref.anchored_filter(fb, minimum, [min(fb)], "bottom", info)
+        FT = ref.anchored_filter(ft, minimum, [max(ft)], "top", info)
+        MB = ref.anchored_filter(set(FB) | cb, minimum, FB, "bottom", info)
+        MT = ref.anchored_filter(set(FT) | ct, minimum, FT, "top", info)
+        anchors = ref.anchored_filter(MB + MT, minimum, FB + FT, "bottom", info)
+        expect_refusal = False
+    except ref.AnchorsTooClose as exc:
+        expect_refusal = True
+        pair = exc.args[0]
+    if info.get("borderline"):
+        out.label("skipped:anchor-rule-borderline")
+        return
+    if cb:
+        out.label("control:%d-bottoms" % min(len(cb), 3))
+    if expect_refusal:
+        out.check(refused, "common/close-fuel-anchors-not-refused",
+                  lambda: "minimum %r: fuel boundaries %r are anchors closer than the minimum, yet a mesh was generated: %r" % (minimum, pair, mesh))
+        return
+    if refused:
+        out.fail("common/refused-although-anchors-compatible",
+                 "minimum %r fuel bottoms/tops %r %r control bottoms/tops %r %r: anchors %r are mutually compatible" % (
+                     minimum, sorted(fb), sorted(ft), sorted(cb), sorted(ct), anchors))
+        return
+    tol = 1e-9 * max(1.0, max(mesh))
+    lost = [z for z in anchors if not any(abs(m - z) <= tol for m in mesh)]
+    kinds = ["control" if (z in cb or z in ct) and z not in fb and z not in ft else "fuel" for z in lost]
+    out.check(not lost, "common/anchor-dropped",
+              lambda: "minimum %r: anchored %s boundaries %r missing from the common mesh %r (fuel bottoms/tops %r %r, control bottoms/tops %r %r, anchors %r)" % (
+                  minimum, "/".join(sorted(set(kinds))), lost, mesh, sorted(fb), sorted(ft), sorted(cb), sorted(ct), anchors))
+    off = [z for z in anchors if (z in cb or z in ct)]
+    if off:
+        out.label("anchors:control-%d" % min(len(off), 3))
 
 
 def common_execute(case):
@@ -877,6 +953,12 @@ def common_execute(case):
             if hs[-1] < 1.0:
                 hs = [round(h * (total - 1.0) / rest, 6) for h in hs[:-1]]
                 hs.append(round(total - math.fsum(hs), 6))
+        # withdraw / insert the column: its bottom and top leave the regular mesh planes
+        unit = case["minimum"] if case["minimum"] is not None else 3.0
+        sh = d.get("shift", [0.0, 0.0])
+        if di > 0:
+            _shift_boundary(hs, lo, sh[0] * unit)
+            _shift_boundary(hs, hi, sh[1] * unit)
         designs.append({"kinds": kinds, "heights": hs, "main": main})
     nd = len(designs)
     cells = [(_CELLS[i], 0 if i == 0 else case["cells"][i] % nd) for i in range(7)]
@@ -926,11 +1008,14 @@ def common_execute(case):
     except ValueError as exc:
         out.rejected = True
         out.label("outcome:refused")
+        _check_anchor_rule(out, r, minimum, None, True)
         out.check("anchor" in str(exc) and bool(close), "common/refused-without-close-boundaries",
                   lambda: "material boundaries %r min %r: %s" % (sb, minimum, str(exc)[:200]))
         return out
     mesh = [float(x) for x in g._commonMesh]
     out.label("outcome:mesh")
+    refused = False
+    _check_anchor_rule(out, r, minimum, mesh, refused)
     cand = avg + sb
     tol = 1e-9 * max(1.0, max(cand))
     out.check(all(mesh[i + 1] > mesh[i] for i in range(len(mesh) - 1)), "common/not-strictly-increasing", lambda: "mesh %r" % mesh)
@@ -960,6 +1045,8 @@ def resample_strategy(tier):
             "mult": st.lists(st.floats(0.0, 4.0, allow_nan=False), min_size=3, max_size=3),
             "xout": st.lists(st.fixed_dictionaries({"b": st.integers(-1, 7), "f": st.one_of(st.sampled_from([0.0, 0.0, 1.0, 0.5]), st.floats(0.0, 1.0, allow_nan=False)),
                                                     "e": st.sampled_from(EPS)}), min_size=1, max_size=8),
+            "ext": st.sampled_from(["none", "none", "below", "above", "both", "both"]),
+            "extd": st.lists(st.one_of(st.sampled_from([0.5, 5.0, 15.0]), st.floats(1e-3, 30.0, allow_nan=False)), min_size=2, max_size=2),
             "xkind": st.sampled_from(["list", "nparray"]),
             "avg": st.booleans(),
             "raw": st.just(False),
@@ -994,6 +1081,12 @@ def _resample_inputs(case):
             else:
                 i = b % n
                 pts.append(xin[i] + p["f"] * (xin[i + 1] - xin[i]) + p["e"])
+        # an output mesh that reaches beyond the input mesh: its end intervals straddle the ends of the input range
+        ext = case.get("ext", "none")
+        if ext in ("below", "both"):
+            pts = [x for x in pts if x > xin[0]] + [xin[0] - case["extd"][0]]
+        if ext in ("above", "both"):
+            pts = [x for x in pts if x < xin[-1]] + [xin[-1] + case["extd"][1]]
         xout = sorted(set(pts))
         if len(xout) < 2:
             xout = sorted(set(xout + [xin[0], xin[-1]]))
@@ -1106,17 +1199,21 @@ def resample_execute(case):
             out.check(g is None, sig or "resample/none-handling", lambda: "xin %r yin %r interval [%r,%r] overlaps an unset bin: %r" % (xin, ys, a, b, g))
             out.label("interval:none")
             continue
-        if avg and e["partial"]:
-            out.label("skipped:avg-interval-partly-outside")
-            continue
         if g is None:
             out.fail(sig or "resample/none-handling", "xin %r yin %r interval [%r,%r]: None although all overlapped bins are set" % (xin, ys, a, b))
             continue
         ev = _vec(e["value"])
         gv = [float(v) for v in g] if hasattr(g, "__len__") else [float(g)]
         tol = 1e-10 * e["scale"] + 1e-300
-        out.check(len(gv) == len(ev) and all(abs(p - q) <= tol for p, q in zip(gv, ev)), sig or ("resample/mean" if avg else "resample/integral"),
-                  lambda: "xin %r yin %r xout [%r,%r] avg=%r: got %r, exact %r" % (xin, ys, a, b, avg, gv, ev))
+        if avg and e["partial"]:
+            # the interval straddles an end of the input mesh: mean over the part it overlaps (constants stay constant)
+            clause = "resample/mean-interval-straddles-range-end"
+            out.label("interval:straddles-" + ("both" if (a < xin[0] and b > xin[-1]) else "bottom" if a < xin[0] else "top"))
+        else:
+            clause = "resample/mean" if avg else "resample/integral"
+        out.check(len(gv) == len(ev) and all(abs(p - q) <= tol for p, q in zip(gv, ev)), sig or clause,
+                  lambda: "xin %r yin %r xout [%r,%r] avg=%r: got %r, exact %r (overlap-weighted over bins %r)" % (
+                      xin, ys, a, b, avg, gv, ev, [i for i, _o in e["pieces"]]))
         out.label("interval:" + ("partial" if e["partial"] else "inside"))
     # sum mode: totals are preserved when the output mesh covers the input range
     if not avg and xout[0] <= xin[0] and xout[-1] >= xin[-1] and all(v is not None for v in ys) and before == after \
